@@ -6,7 +6,7 @@ from core import Result
 import proto, gen, implutil
 
 THEOREMS = ['C07_detector_args', 'C07_fraction', 'C07_fraction_inside', 'C07_fraction_range', 'C07_rule', 'C07_pointwise', 'C07_one_minN',
-            'C07_antitone', 'C07_rejects_threshold', 'C07_rejects_amp_threshes', 'C07_pipeline']
+            'C07_antitone', 'C07_rejects_threshold', 'C07_rejects_amp_threshes', 'C07_pipeline', 'C07_filter_fixed_point']
 RULE = ("(a) synthetic burst_fraction columns (values k/n, NaN, on/next to the threshold) x thresholds (grid, observed values, out of range) x min_n_cycles; "
         "(b) compute_features(burst_method='amp') on generated partially bursting signals, both centrings, amp_threshes grid (incl. reversed), "
         "min_n_cycles supplied via thresholds / burst options / both / neither: the harness recomputes the dual-threshold mask with neurodsp for the "
